@@ -390,7 +390,13 @@ class PeerConnection:
         self.reset_last_message()
         self.reset_last_read()
         self._read_thread.start()
-        self._write_thread.start()
+        try:
+            self._write_thread.start()
+        except RuntimeError:
+            # "can't start new thread"; nobody will ever hold a reference to
+            # this half-built connection, do not leave its reader running
+            self._read_thread.stop()
+            raise
 
     def __str__(self):
         return f"<PeerConnection({self.ident}, {self.node_name}>"
